@@ -58,7 +58,7 @@ fn check_query(label: &str, query: &str, args: &[(&str, FieldValue)], failures: 
     c
 }
 
-// @grid c05_grid_required_properties tier=quick bound="14 query shapes: outputs, filters, same-component tags, tags used only inside a fold / a nested fold / an optional scope / a fold-count filter, fold-count tags, __typename, recursion and coercion"
+// @grid c05_grid_required_properties tier=quick bound="every numbers query of the corpus (repository valid queries + 20 extra shapes) and 14 query shapes: outputs, filters, same-component tags, tags used only inside a fold / a nested fold / an optional scope / a fold-count filter, fold-count tags, __typename, recursion and coercion"
 // @ob every resolve_property(type, name) call the engine makes for a vertex names a property listed by resolve_info.required_properties() for that vertex
 pub(crate) fn c05_grid_required_properties() {
     let mut failures = BTreeSet::new();
@@ -83,6 +83,15 @@ pub(crate) fn c05_grid_required_properties() {
         let args: Vec<(&str, FieldValue)> = if q.contains("$x") { vec![("x", FieldValue::Int64(4))] } else if q.contains("$t") { vec![("t", FieldValue::String(Arc::from("Prime")))] } else { vec![] };
         let calls = check_query(label, q, &args, &mut failures);
         if calls == 0 && !failures.iter().any(|f| f.starts_with(label)) { failures.insert(format!("{label}: vacuous - the engine made no resolve_property call")); }
+        n += 1;
+    }
+    // the same contract on every numbers query of the corpus (repository queries + extra shapes)
+    for case in crate::verif_corpus::corpus() {
+        if case.schema_name != "numbers" || crate::verif_corpus::compile(&case).is_none() { continue; }
+        let args: Vec<(&str, FieldValue)> = case.arguments.iter().map(|(k, v)| (k.as_ref(), v.clone())).collect();
+        let accepted = crate::interpreter::InterpretedQuery::from_query_and_arguments(crate::verif_corpus::compile(&case).unwrap(), Arc::new(case.arguments.clone())).is_ok();
+        if !accepted { continue; }
+        check_query(&case.name, &case.query, &args, &mut failures);
         n += 1;
     }
     vk::grid_done("c05_grid_required_properties", n);
